@@ -225,7 +225,7 @@ func c09cRun(t *testing.T, s *c09cScenario, privs []crypto.PrivKey, pubBytes [][
 	// keep away from the end of the current slot: the whole scenario runs inside one slot
 	for {
 		ms := time.Now().UnixNano() / 1000000
-		if rem := ivms - (ms-1)%ivms; rem > 250 || ivms <= 300 {
+		if rem := ivms - (ms-1)%ivms; rem > 80 || ivms <= 100 {
 			break
 		}
 		time.Sleep(20 * time.Millisecond)
